@@ -69,7 +69,19 @@ def main():
             results.append(row)
         finally:
             sh('git -C /repo checkout -- .')
-    json.dump(results, open(os.path.join(VERIF, 'selftest', 'results.json'), 'w'), indent=1)
+    # merge with earlier runs (rows are keyed by mutant name)
+    rp = os.path.join(VERIF, 'selftest', 'results.json')
+    try:
+        prev = {r['mutant']: r for r in json.load(open(rp))}
+    except (OSError, ValueError):
+        prev = {}
+    for r in results:
+        if r['mutant'] in prev and r.get('checks') and not full:
+            old_checks = prev[r['mutant']].get('checks', {})
+            for k, v in old_checks.items():
+                r['checks'].setdefault(k, v)
+        prev[r['mutant']] = r
+    json.dump(sorted(prev.values(), key=lambda r: r['mutant']), open(rp, 'w'), indent=1)
     missed = [r for r in results if r.get('applies') and not all(c['fired'] for c in r['checks'].values())]
     print('%d mutants, %d with a missed check' % (len(results), len(missed)))
     return 1 if missed else 0
